@@ -262,11 +262,16 @@ class StmtsMixin:
     def st_If(self, s, st, d):
         out = []
         nar = self.isinstance_narrowing(s.test)
+        opaque = getattr(self, "opaque_branches", {}).get((self.fn_stack[-1][0] if self.fn_stack else "?", ast.unparse(s.test)))
         for s1, c in self.ev(s.test, st, d):
             t = truth(c, s1)
             for body, cond, branch in ((s.body, t, True), (s.orelse, z3.Not(t), False)):
                 s2 = s1.copy(); s2.assume(cond)
                 if feasible(s2.pc):
+                    if opaque is not None and opaque["branch"] == branch:
+                        # stated abstraction: this branch is not modelled; its outcomes are over-approximated
+                        out += opaque["outcomes"](self, s2)
+                        continue
                     if nar and nar[2] == branch:
                         v = s2.env.get(nar[0])
                         if v is not None and v.ty[0] == "ref" and v.ty[1] in self.src.mro(nar[1]) and v.ty[1] != nar[1]:
